@@ -221,51 +221,46 @@ def run(ctx):
     ctx.ob("C20.4", "worker|waits", "the worker has a timed wait (surplus workers) and an untimed one (the fixed minimum)", len(timed) == 1 and len(untimed) == 1, "%s:%d" % (w.file, w.line), "%d timed, %d untimed" % (len(timed), len(untimed)))
     MIN = None
     if len(timed) == 1 and len(untimed) == 1 and P.live_field:
-        dom = w.dominators(False)
-        dec = None
-        for b in sorted(dom[timed[0]] & dom[untimed[0]], key=lambda b: -len(dom[b])):
-            bs2 = bool_switch(w, b)
-            if bs2:
-                dec = (b, bs2)
-                break
-        ctx.require(dec is not None, "C20.4: decision between timed and untimed wait")
-        b, bs2 = dec
-        o = w.origin(bs2[0])
-        ok = False
-        detail = origin_str(o)
-        if o[0] == "binop" and o[1] in ("Le", "Lt", "Gt", "Ge"):
-            l, r = o[2], o[3]
-            lhs_live = origin_has_call(l, PR.ATOMIC_LOAD) and P.counter_of(w, l) == P.live_field
-            rhs_live = origin_has_call(r, PR.ATOMIC_LOAD) and P.counter_of(w, r) == P.live_field
-            other = r if lhs_live else l
-            MIN = int_of_origin(facts, other)
-            if MIN is None:
-                # a read of a local static
-                for x in origin_walk(other):
-                    if x[0] == "const" and len(x) > 2:
-                        for s in facts.d["statics"]:
-                            v = static_value(facts, s["id"])
-                            if isinstance(v, int) and (s["id"].rsplit("::", 1)[-1] in str(x[2]) or str(x[2]).startswith("{alloc") or "&" in str(x[2])):
-                                sts = [st["rhs"]["op"].get("static") for blk in w.blocks for st in blk["stmts"] if st["s"] == "assign" and st["rhs"]["rv"] == "use" and st["rhs"]["op"].get("static")]
-                                if s["id"] in sts:
-                                    MIN = v
-            ops = {"Le": operator.le, "Lt": operator.lt, "Gt": operator.gt, "Ge": operator.ge}
-            bad = []
-            if (lhs_live or rhs_live) and isinstance(MIN, int):
-                for n in (0, 1, MIN - 1, MIN, MIN + 1, MIN + 2, 100, 999999999):
-                    val = ops[o[1]](n, MIN) if lhs_live else ops[o[1]](MIN, n)
-                    goes = (bs2[1] if val else bs2[2])
-                    is_timed = timed[0] in w.reach([goes], blocked={b}, unwind=False) and untimed[0] not in w.reach([goes], blocked={b}, unwind=False)
-                    if is_timed != (n > MIN):
-                        bad.append(n)
-                ok = not bad
-                detail += " mismatching live counts: %s" % bad
+        # decided by evaluation: with the live-worker counter reading n, which of the two waits does the worker reach first?  (however the
+        # decision is spelled: a comparison in place, a helper returning a bool or an enum, a match on it)
+        def first_waits(n):
+            def on_call(bb, t, args, st2):
+                if re.search(PR.ATOMIC_LOAD, call_name(t)) and args:
+                    d = absint.deep(st2, args[0])
+                    if any(x and x[0] == "field" and x[2] == P.live_field for x in absint.walk_terms(d)) or \
+                            any(isinstance(seg, str) and seg == "." + P.live_field for x in absint.walk_terms(args[0]) if x and x[0] == "ref" for seg in x[1]):
+                        return ("const", n, "%d_usize" % n, None)
+                return None
+            def stop(bb, t, st2):
+                if t["t"] == "call" and call_is(t, CV_WAIT_T):
+                    return "timed"
+                if t["t"] == "call" and call_is(t, CV_WAIT):
+                    return "untimed"
+            kinds = set()
+            periods = []
+            for p in absint.explore(w, 0, None, on_call=on_call, stop=stop, max_visits=2, max_paths=6000):
+                if p.end[0] == "stop":
+                    kinds.add(p.end[2])
+                    if p.end[2] == "timed":
+                        t_ = w.term(p.blocks[-1])
+                        periods.append(absint.deep(p.state, p.state.operand(t_["args"][2])))
+            return kinds, periods
+        table = {}
+        all_periods = []
+        for n in list(range(0, 13)) + [100, 999999999]:
+            k_, pr_ = first_waits(n)
+            table[n] = k_
+            all_periods += pr_
+        unt = [n for n, k_ in table.items() if k_ == {"untimed"}]
+        tim = [n for n, k_ in table.items() if k_ == {"timed"}]
+        ok = bool(unt) and bool(tim) and len(unt) + len(tim) == len(table) and max(unt) < min(tim) and max(unt) >= 1
+        if ok:
+            MIN = max(unt)
+        detail = "waits reached first, by live count: %s" % {n: "/".join(sorted(k_)) or "none" for n, k_ in sorted(table.items())}
         ctx.counts["minimum workers"] = MIN if isinstance(MIN, int) else -1
-        ctx.ob("C20.4", "worker|timed-wait-iff-above-minimum", "a worker waits with a timeout exactly when more than the fixed minimum (%s) of workers exist, and indefinitely otherwise" % MIN, ok, w.loc(b), detail)
-        t = w.term(timed[0])
-        od = w.origin(t["args"][2])
-        varies = [x for x in origin_walk(od) if x[0] in ("arg", "local", "field", "unknown")]
-        ctx.ob("C20.4", "worker|idle-period-constant", "the idle period is a constant", not varies, w.loc(timed[0]), origin_str(od))
+        ctx.ob("C20.4", "worker|timed-wait-iff-above-minimum", "a worker waits with a timeout exactly when more than the fixed minimum (%s) of workers exist, and indefinitely otherwise" % MIN, ok, w.loc(timed[0]), None if ok else detail)
+        varies = [symex.sym_str(x)[:80] for x in all_periods if not (x and x[0] in ("dur", "const") or (x and x[0] == "call" and re.search(r"Duration::from_(millis|secs|micros|nanos)$|Duration::new$", x[1]) and all(absint.const_of(a) is not None for a in x[2])))]
+        ctx.ob("C20.4", "worker|idle-period-constant", "the idle period is a constant", bool(all_periods) and not varies, w.loc(timed[0]), None if not varies else str(varies[:2]))
     td = P.drop
     ctx.ob("C20.4", "pool|has-destructor", "the pool has a destructor that retires its workers", td is not None, P.tp)
     if td is not None and isinstance(MIN, int):
